@@ -6,6 +6,7 @@ CONSTANTS
   MaxRuns = 3
   MaxClr = 1
   Dev = {}
+  Slows = {0}
   Export = FALSE
 INIT Init
 NEXT Next
